@@ -171,6 +171,8 @@ pub fn run(ctx: &mut Ctx) {
             },
         );
     });
+    // a recycled decoder judges like a fresh one (every short corpus stream after 30 earlier histories)
+    crate::checks::c14::inflate_reset_probes(ctx, &crate::machine::MEnv::new(), "recycled-decoder");
     // all short strings x modes
     let n = if quick { 2 } else { 3 };
     let modes: &[i32] = if quick { &[-15, 15, 31, 47, 0, -8] } else { &[-15, -8, 15, 8, 0, 31, 24, 47, 40, 32] };
